@@ -42,6 +42,10 @@ func genC20(o *vcoq.Out, r *vcoq.Rand, tier string) error {
 	g.publication()
 	g.constructors()
 	g.vendStore()
+	g.meterMask()
+	g.stockMask()
+	g.pubStore()
+	g.pulls()
 	return nil
 }
 
